@@ -14,12 +14,14 @@ def base(rng, kind=None, n=None, vals=None):
 def arg(rng, lo=-8, hi=8, pu=0.2):
     return "u" if rng.random() < pu else str(rng.randint(lo, hi))
 
-def rangeexpr(rng):
+def rangeexpr(rng, posstep=False):
     k = rng.choice([0, 1, 2, 3, 3, 3])
+    if posstep:                 # unit-scaled views: an explicit step >= 0 (the default step 1 and a descending start do not scale)
+        return "G 3 %s %d %d" % (arg(rng, pu=0.15), rng.randint(-8, 8), rng.choice([0, 1, 1, 2, 3, 5, 8]))
     if k == 0: return "G 0"
     if k == 1: return "G 1 %d" % rng.randint(-3, 9)
     if k == 2: return "G 2 %s %d" % (arg(rng, pu=0.15), rng.randint(-8, 8))
-    return "G 3 %s %d %s" % (arg(rng, pu=0.15), rng.randint(-8, 8), arg(rng, pu=0.15))
+    return "G 3 %s %d %s" % (arg(rng, pu=0.15), rng.randint(-8, 8), arg(rng, 0 if posstep else -8, 8, pu=0.15))
 
 def expr(rng, depth, ints=True, need_len=False):
     """ints=True: the items must be Ints (filter / map operate on them); need_len: the result must implement len
@@ -60,3 +62,41 @@ def slice_grid(lengths, args, kinds="ALU"):
 
 def range_grid(vals):
     return ["G 3 %d %d %d" % (a, b, c) for a in vals for b in vals for c in vals]
+
+
+# ---- magnitudes: values beyond 32 bits (unit-scaled views) and positions beyond any container (saturating in the log)
+UNITS = [2**31 + 11, 2**32, 2**32 + 3, 2**33 + 1, 2**40 + 7]
+BIGPOS = [2**31, 2**31 + 5, 2**32, 2**32 + 3, -2**31 - 1, -2**32, -2**32 - 3, 2**40, 2**62]
+
+def unit_expr(rng, depth, ints=False):
+    """only constructs whose items scale linearly with the values: bases, ranges with explicit steps >= 0 (a descending range
+    starts at stop - 1 and the default step is 1: neither scales), slices (any step: positions), zips, the maps 2x and -x"""
+    if depth == 0 or rng.random() < 0.3:
+        return base(rng, rng.choice("ALU")) if rng.random() < 0.4 else rangeexpr(rng, True)
+    r = rng.random()
+    if r < 0.5:
+        k = rng.choice([0, 1, 2, 3, 3])
+        return "S %d %s%s" % (k, unit_expr(rng, depth - 1, ints), "".join(" " + arg(rng) for _ in range(k)))
+    if r < 0.7:
+        return "M %d %s" % (rng.choice([1, 2]), unit_expr(rng, depth - 1, True))
+    if r < 0.85 and not ints:
+        k = rng.choice([1, 2, 3])
+        return "Z %d%s" % (k, "".join(" " + unit_expr(rng, depth - 1, True) for _ in range(k)))
+    return rangeexpr(rng, True)
+
+def unit_views(rng, n):
+    out = ["@%d %s" % (u, g) for u in UNITS for g in range_grid([-2, 0, 1, 3, 7]) if int(g.split()[-1]) >= 0]
+    out += ["@%d %s" % (rng.choice(UNITS), unit_expr(rng, rng.choice([1, 2, 3]))) for _ in range(n)]
+    return out
+
+def bigpos_views(rng, n):
+    """slice arguments whose magnitude exceeds 32 bits, over bases and ranges"""
+    out = []
+    for _ in range(n):
+        sub = base(rng, rng.choice("ALU")) if rng.random() < 0.6 else rangeexpr(rng)
+        k = rng.choice([1, 2, 3, 3, 3])
+        a = [arg(rng) for _ in range(k)]
+        a[rng.randrange(k)] = str(rng.choice(BIGPOS))
+        if k == 3 and rng.random() < 0.5: a[2] = str(rng.choice(BIGPOS))
+        out.append("S %d %s %s" % (k, sub, " ".join(a)))
+    return out
